@@ -52,6 +52,12 @@ const (
 	opNestLocal    = 0x20
 	opNestPeer     = 0x21
 	opNestIndirect = 0x22
+	// call_indirect through table slot 9, which only a "graft" step fills: with a function of
+	// another module that imported this instance's table (and possibly failed to instantiate
+	// afterwards). It returns graftBase+k without any effect; an empty slot traps.
+	opNestGraft = 0x23
+	graftSlot   = 9
+	graftBase   = 0x7000
 	// unbounded recursion: opRec + frame kind
 	opRec     = 0x28 // .. 0x2b
 	nRecKinds = 4
@@ -239,6 +245,9 @@ func buildGuest(peer string, start int) []byte {
 		}
 		when(opNestLocal, func() { nest(func() { b.LocalGet(lRest).Call(fRun) }) })
 		when(opNestPeer, func() { nest(func() { b.LocalGet(lRest).Call(peerRun) }) })
+		when(opNestGraft, func() {
+			nest(func() { b.LocalGet(lRest).LocalGet(lZero).I32Const(graftSlot).Raw(e.OpI32Add).CallIndirect(runType, 0) })
+		})
 		when(opNestIndirect, func() {
 			nest(func() { b.LocalGet(lRest).LocalGet(lZero).I32Const(3).Raw(e.OpI32Add).CallIndirect(runType, 0) })
 		})
@@ -443,7 +452,8 @@ func buildGuest(peer string, start int) []byte {
 	m.Exports = append(m.Exports,
 		e.Export{Name: "cnt", Kind: e.KGlobal, Idx: gCnt},
 		e.Export{Name: "rec", Kind: e.KGlobal, Idx: gRec},
-		e.Export{Name: "memory", Kind: e.KMem, Idx: 0})
+		e.Export{Name: "memory", Kind: e.KMem, Idx: 0},
+		e.Export{Name: "tbl", Kind: e.KTable, Idx: 0})
 	switch start {
 	case startSection:
 		m.Start = e.P(fStart)
@@ -473,3 +483,18 @@ func atomicShape(sub int) (is64 bool, width uint32) {
 }
 
 func atomicOperand(sub int) uint64 { return 0x0123456789abcdef ^ uint64(sub)*0x0101010101010101 }
+
+// buildGraft encodes a module that imports the table of instance owner, stores its own function
+// (script i64) -> i32 = graftBase+k into slot graftSlot with an active element segment and then,
+// if failing, traps in its start function: the instantiation fails after the table was written.
+func buildGraft(owner string, k int, failing bool) []byte {
+	m := &e.Module{}
+	m.Imports = append(m.Imports, e.Import{Mod: owner, Name: "tbl", Kind: e.KTable, Desc: e.TableType(e.FuncRef, 10, 10)})
+	f := m.AddFunc([]byte{e.I64}, []byte{e.I32}, nil, e.NewB().I32Const(int32(graftBase+k)).Bytes())
+	st := m.AddFunc(nil, nil, nil, e.NewB().Unreachable().Bytes())
+	m.Elems = [][]byte{e.ActiveElemFuncs(graftSlot, []uint32{f})}
+	if failing {
+		m.Start = e.P(st)
+	}
+	return m.Encode()
+}
